@@ -225,7 +225,8 @@ impl Monitor for C12 {
                             let ret = evs.iter().find_map(|e| if let PoolEv::RouteSummary { return_amount, .. } = e { Some(*return_amount) } else { None });
                             // the input token may equal the output token on cyclic simple routes
                             let delta = if &funds[0].denom == token_out_denom { bal1 + funds[0].amount.u128() - bal0 } else { bal1 - bal0 };
-                            if ret == Some(q.return_amount.u128()) && delta == q.return_amount.u128() {
+                            // the route summary event is a cross-check only: what counts is what arrives
+                            if (ret.is_none() || ret == Some(q.return_amount.u128())) && delta == q.return_amount.u128() {
                                 rep.held("route_eq", abs, || {
                                     json!({"hops": operations.len(), "pools": operations.iter().map(|o| o.get_pool_identifer()).collect::<Vec<_>>(),
                                            "offer": funds[0].to_string(), "quoted": q.return_amount.to_string(), "delivered": delta.to_string()})
@@ -269,7 +270,7 @@ impl Monitor for C12 {
                         let delta = (b1 + paid_in).saturating_sub(b0);
                         let ret = parse_events(&out2, &w.pm).unwrap_or_default().iter().find_map(|e| if let PoolEv::RouteSummary { return_amount, .. } = e { Some(*return_amount) } else { None });
                         let abs2 = hash_of(&("min", operations.len(), s.idx % variants.len(), recv == *sender));
-                        if out2.is_ok() && ret == Some(qa) && delta == qa {
+                        if out2.is_ok() && (ret.is_none() || ret == Some(qa)) && delta == qa {
                             rep.held("route_eq", abs2, || json!({"hops": operations.len(), "minimum_receive": min.map(|m| m.to_string()), "receiver": if recv == *sender { "sender" } else { "another account" }, "quoted": qa.to_string(), "delivered": delta.to_string()}));
                         } else {
                             rep.failed(
